@@ -42,7 +42,7 @@ partial def runOps (o : Opts Rat) (s : St Rat) (ops : List String) (acc : Array 
     if k != "s" && k != "b" then acc.push "O c PARSE" else
     let report := tokToRat rep
     let sched := tokToRat sch
-    if !legalReq report sched s && s.scs != .finalReturned then acc.push "O c ILLEGAL" else
+    if !assertsOK report sched s && s.scs != .finalReturned then acc.push "O c ILLEGAL" else
     let orc := mkOracle o s report sched n.toNat! (tokToRat tadv) (ev == "1") (tokToRat tlow)
     match stepTo o report sched orc s with
     | .ret st s' [] => runOps o s' rest (acc.push ("O c " ++ toString st.code ++ " " ++ obs s'))
